@@ -4,6 +4,8 @@ package rfmt
 
 import (
 	"reflect"
+	"runtime"
+	"sync"
 	"sync/atomic"
 	"unsafe"
 )
@@ -39,6 +41,24 @@ var VerifPoolSink func(ev VerifPoolEvent)
 
 var verifSeq int64
 
+// Printer identities: an address can be reused once an abandoned printer has been
+// garbage collected, so identities are handed out per object and retired by a finalizer.
+var (
+	verifIDs    sync.Map // uintptr -> uint64
+	verifNextID uint64
+)
+
+func verifID(p *pp) uint64 {
+	key := uintptr(unsafe.Pointer(p))
+	if id, ok := verifIDs.Load(key); ok {
+		return id.(uint64)
+	}
+	id := atomic.AddUint64(&verifNextID, 1)
+	verifIDs.Store(key, id)
+	runtime.SetFinalizer(p, func(q *pp) { verifIDs.Delete(uintptr(unsafe.Pointer(q))) })
+	return id
+}
+
 func verifPool(ev string, p *pp) {
 	sink := VerifPoolSink
 	if sink == nil {
@@ -51,7 +71,7 @@ func verifPool(ev string, p *pp) {
 		arr = uint64(raw.Pointer())
 	}
 	sink(VerifPoolEvent{
-		Seq: atomic.AddInt64(&verifSeq, 1), Ev: ev, Pid: uint64(uintptr(unsafe.Pointer(p))),
+		Seq: atomic.AddInt64(&verifSeq, 1), Ev: ev, Pid: verifID(p),
 		Override: int(p.override), WrapErrs: p.wrapErrs, WrappedErr: p.wrappedErr != nil,
 		Panicking: p.panicking, Erroring: p.erroring, ArgSet: p.arg != nil || p.value.IsValid(),
 		BufLen: raw.Len(), BufCap: raw.Cap(), BufMode: int(bv.FieldByName("mode").Int()),
